@@ -48,7 +48,7 @@ GOOD = {"min", "new-3.0.10", "new-10.0.0"}
 HANDSHAKE = Profile(write_exc=("SerialException", "SerialException_EBUSY"),
                     read_exc=("SerialException", "SerialException_EBUSY"),
                     latency=(0, 1, 26), content=("err",), silent=True, read_window=2,
-                    close_exc=True)
+                    close_exc=True, flush_exc=True)
 
 
 class ProbeBoard(EBB3Board):
